@@ -85,6 +85,40 @@ Theorem C11_amp_equals_post_encoded :
   (h_status post = 500 /\ ampr = {| h_status := 500; h_body := [] |}).
 Proof. exact amp_equals_post_encoded. Qed.
 
+(* the two endpoints for EVERY decodable poll, with the cases the equality above leaves out: a poll beyond the POST
+   body limit is a 400 on /client but is taken by /amp/client/ (the handler has no limit of its own); a poll that
+   starts with '{' goes to the legacy shim on /client but is an ordinary (versioned, hence refused by IPC) poll on
+   /amp/client/. So "AMP = armored POST" holds exactly for non-legacy polls within the limit. *)
+Theorem C11_amp_vs_post_all_polls :
+  forall (client_offers : bytes -> option bytes) (legacy_post : bytes -> http_reply)
+         (armor : bytes -> bytes) (decode_error_response : option bytes) p body,
+  decode_path p = POk body ->
+  let post := post_handler client_offers legacy_post body in
+  let ampr := amp_handler client_offers armor decode_error_response (AMP_ROUTE ++ p) in
+  ampr = match client_offers body with
+         | Some r => {| h_status := 200; h_body := armor r |}
+         | None => {| h_status := 500; h_body := [] |}
+         end /\
+  (BROKER_READ_LIMIT < N.of_nat (length body) -> post = {| h_status := 400; h_body := [] |}) /\
+  (N.of_nat (length body) <= BROKER_READ_LIMIT -> is_legacy_b body = true -> post = legacy_post body) /\
+  (N.of_nat (length body) <= BROKER_READ_LIMIT -> is_legacy_b body = false ->
+     post = match client_offers body with
+            | Some r => {| h_status := 200; h_body := r |}
+            | None => {| h_status := 500; h_body := [] |}
+            end).
+Proof. exact amp_post_cases. Qed.
+
+(* the divergence is real: a '{'-leading poll for which the shim answers 503 and IPC (on the raw body) an error text *)
+Example C11_amp_vs_post_diverge_ex :
+  let co := fun b : bytes => Some (bs "{""error"":""unsupported message version""}") in
+  let lp := fun b : bytes => {| h_status := 503; h_body := [] |} in
+  decode_path (bs "0/e30") = POk (bs "{}") /\ is_legacy_b (bs "{}") = true /\
+  post_handler co lp (bs "{}") = {| h_status := 503; h_body := [] |} /\
+  amp_handler co (fun x => x) None (AMP_ROUTE ++ bs "0/e30") = {| h_status := 200; h_body := bs "{""error"":""unsupported message version""}" |} /\
+  BROKER_READ_LIMIT < N.of_nat (length (repeat 49 (N.to_nat 100001))) /\
+  h_status (post_handler co lp (repeat 49 (N.to_nat 100001))) = 400.
+Proof. vm_compute. repeat split. Qed.
+
 (* ---------------- domain prefix ---------------- *)
 
 (* a single dot-free label of at most 63 bytes: either the basic algorithm's output or the
